@@ -37,6 +37,21 @@ thread_local! {
     static CLOCK: RefCell<ClockState> = RefCell::new(ClockState::default());
 }
 
+thread_local! {
+    static ACTIVE: std::cell::Cell<bool> = const { std::cell::Cell::new(false) };
+}
+
+/// Is a simulated execution in progress on this thread? Destructors of
+/// simulator objects consult this: shuttle primitives must not be touched
+/// once the execution is over.
+pub fn active() -> bool {
+    ACTIVE.try_with(|a| a.get()).unwrap_or(false)
+}
+
+pub fn set_active(v: bool) {
+    let _ = ACTIVE.try_with(|a| a.set(v));
+}
+
 #[derive(Clone, Copy, Debug, PartialEq, Eq)]
 pub struct TimerId(u64, u64);
 
